@@ -1329,11 +1329,15 @@ def _apply_solver_cfg(om, model, gobj, cfg):
     for path, g in gobj.items():
         if path == '':
             continue
-        ls = mk(cfg.get('sub_linear'))
+        kind = cfg.get('sub_linear')
+        if cfg.get('sub_by_depth'):
+            # different solvers per nesting depth (1 = direct child of the root)
+            kind = cfg['sub_by_depth'].get(str(path.count('.') + 1), kind)
+        ls = mk(kind)
         if ls is not None:
             g.linear_solver = ls
-            if cfg.get('jac'):
-                g.options['assembled_jac_type'] = cfg['jac']
+            if cfg.get('jac') or kind == 'direct_asm':
+                g.options['assembled_jac_type'] = cfg.get('jac') or 'csc'
 
 
 def set_auto_ivc_values(p, md):
